@@ -529,9 +529,9 @@ def worker(arg):
 
 def check(tier, seed):
     t = pc.trees("plain", "san")
-    n = 400 if tier == "quick" else 3000
-    nsan = 24 if tier == "quick" else 150
-    ncomp = 6 if tier == "quick" else 64
+    n = 400 if tier == "quick" else 1600
+    nsan = 24 if tier == "quick" else 96
+    ncomp = 6 if tier == "quick" else 24
     res = Result("exploration")
     res.rule = RULE
     base = seed * 1000000 + (0 if tier == "quick" else 50000) + 190000
